@@ -200,7 +200,7 @@ def run(ctx):
                 missing = [w for w in WITNESSES if w not in names]
                 if missing:
                     raise vflib.InfraError("vacuity: the bounded model %s never reaches %s" % (cfg, missing))
-        sims = [("Sim_4.cfg", (300, 60))] if quick else [("Sim_4.cfg", (1500, 80)), ("Sim_5.cfg", (800, 100))]
+        sims = [("Sim_4.cfg", (300, 60))] if quick else [("Sim_4.cfg", (6000, 80)), ("Sim_5.cfg", (4000, 100))]
         for cfg, nd in sims:
             r = ctx.tlc("AddrMan", "MCAddrMan", cfg, simulate=nd, timeout=2400, env=LIGHT_JVM if quick else None)
             for n in set(json.loads(l)["w"] for l in open(r.emit_path)):
